@@ -70,6 +70,23 @@ Proof.
     apply hexl_roundtrip. change (2 ^ 64)%N with (Z.to_N (2 ^ 64)). apply Z2N.inj_lt; lia.
 Qed.
 
+(* p_flags_to_string: below 8 the gABI letters (finite sweep over the eight values, lifted), from 8
+   on the prefix and a hexadecimal rendering that reads back *)
+Lemma p_flags_ok_spec tab :
+  forallb (fun v => String.eqb (p_flags_string tab v) (p_flags_ref v)) [0; 1; 2; 3; 4; 5; 6; 7]%Z = true ->
+  forall v, (0 <= v < 2 ^ 32)%Z ->
+    ((v < 8)%Z -> p_flags_string tab v = p_flags_ref v) /\
+    ((8 <= v)%Z -> p_flags_string tab v = ("p_flags(" ++ hex0xl (Z.to_N v) ++ ")")%string /\
+                   value_of 16 (hexl (Z.to_N v)) 0 = Z.to_N v).
+Proof.
+  intros H v Hv. rewrite forallb_forall in H. split.
+  - intros Hlt. apply String.eqb_eq. apply H.
+    assert (E : (v = 0 \/ v = 1 \/ v = 2 \/ v = 3 \/ v = 4 \/ v = 5 \/ v = 6 \/ v = 7)%Z) by lia.
+    cbn [In]. intuition.
+  - intros Hge. unfold p_flags_string. destruct (Z.ltb_spec v 8) as [Hc|Hc]; [lia|]. split; [reflexivity|].
+    apply hexl_roundtrip. change (2 ^ 64)%N with (Z.to_N (2 ^ 64)). apply Z2N.inj_lt; lia.
+Qed.
+
 (* layouts *)
 Lemma fty_eqb_eq a b : fty_eqb a b = true -> a = b.
 Proof. destruct a, b; cbn; try discriminate; intros H; apply Nat.eqb_eq in H; now subst. Qed.
